@@ -39,11 +39,16 @@ MASS = {"H": 1, "H2": 2, "He": 4, "C": 12, "N": 14, "CH4": 16, "O": 16, "NH3": 1
         "H2CO": 30, "CH3OH": 32, "O2": 32, "CO2": 44}
 
 
-def make_case(rng, fmt, model):
+GRAIN_KEYS = {"rG", "gdens", "sites", "barr", "hop", "nMono", "opt_frz", "opt_thd", "opt_crd", "opt_uvd", "opt_rcd", "branch", "duty", "Tcr", "fr", "opt_h2d",
+              "eb_crd", "eb_uvd", "eb_h2d", "crdeseff", "uvcreff", "h2deseff"}
+
+
+def make_case(rng, fmt, model, group=0):
     gas = rng.sample(sorted(RATE12_EB), rng.randint(3, 6))
     if "H" not in gas:
         gas[0] = "H"
-    pref = "G" if fmt == "leeds" else "#"
+    pref = ("G" if fmt == "leeds" else "#") + (str(group) if group else "")
+    gsym = "GRAIN" + (str(group) if group else "")
     user_eb = {g: round(rng.uniform(300, 6000), 1) for g in gas if rng.random() < 0.35}
     user_yield = {g: rng.choice([1e-3, 2.5e-3, 0.05, 0.3]) for g in gas if rng.random() < 0.35}
     sp = {g: {"name": pref + g, "gas": g, "A": MASS[g], "eb": user_eb.get(g, RATE12_EB[g]), "yield": user_yield.get(g), "charge": 0, "electron": False}
@@ -64,8 +69,8 @@ def make_case(rng, fmt, model):
             add("photon", [pref + g], [g], rtype=10, species=g, pseudo="PHOTON")
         ions = [g for g in gas if g in ("H", "C", "O", "He", "N")][:2]
         for g in ions:
-            add("recombine", [g + "+", "GRAIN-"], [g, "GRAIN0"], alpha=rng.choice([1.0, 0.5]), rtype=6, species=g + "+", ion_mass=MASS[g])
-        add("ecapture", ["e-", "GRAIN0"], ["GRAIN-"], rtype=20)
+            add("recombine", [g + "+", gsym + "-"], [g, gsym + ("" if group else "0")], alpha=rng.choice([1.0, 0.5]), rtype=6, species=g + "+", ion_mass=MASS[g])
+        add("ecapture", ["e-", gsym + ("" if group else "0")], [gsym + "-"], rtype=20)
         for _ in range(rng.randint(2, 4)):
             a, b = rng.choice(gas), rng.choice(gas)
             add("surface", [pref + a, pref + b], [pref + rng.choice(gas)], alpha=rng.choice([0.0, 500.0, 1200.0, 2500.0]), rtype=13, pair=[a, b])
@@ -80,7 +85,9 @@ def make_case(rng, fmt, model):
             if model == "rr07x":
                 add("thermal", [pref + g], [g], marker="THERM", species=g)
         add("freeze", ["C+"], [pref + "C"], alpha=1.0, marker="FREEZE", species="C+", ion=True)     # ions freeze out as the neutral ice
-        add("freeze", ["E-"], ["H"], alpha=1.0, marker="FREEZE", species="E-", electron=True)
+        if not group:
+            # electron freeze-out carries no ice species: naunet assigns it to grain group 0 (documented), which exists only in group-0 networks
+            add("freeze", ["E-"], ["H"], alpha=1.0, marker="FREEZE", species="E-", electron=True)
         # UCLCHEM networks always contain H2 (registered shielding) and H (H2-formation desorption)
         add("gas", ["H", "H"], ["H2"], alpha=1e-17, marker=None)
     points = []
@@ -102,17 +109,39 @@ def make_case(rng, fmt, model):
                             "marker": "THERM", "idx": 999})
     if fmt == "leeds" and model in ("hh93", "hh93i"):
         pass
-    return {"format": fmt, "model": model, "gas": gas, "species": sp, "user_eb": user_eb, "user_yield": user_yield, "reactions": reacs, "points": points,
+    return {"format": fmt, "model": model, "group": group, "gas": gas, "species": sp, "user_eb": user_eb, "user_yield": user_yield, "reactions": reacs, "points": points,
             "unsupported": unsupported}
 
 
 PAIRS = [("leeds", "hh93"), ("uclchem", "rr07"), ("leeds", "hh93i"), ("uclchem", "rr07x")]
 
 
+def make_two_group_case(rng):
+    """leeds + hh93 with two grain populations: group 0 (GX, GRAIN0/GRAIN-) and group 1 (G1X, GRAIN1/GRAIN1-), each with its own
+    parameter set: a rate of a group-1 reaction must be built from the group-1 parameters."""
+    c0 = make_case(rng, "leeds", "hh93", group=0)
+    c1 = make_case(rng, "leeds", "hh93", group=1)
+    for r in c0["reactions"]:
+        r["group"] = 0
+    for r in c1["reactions"]:
+        r["group"] = 1
+    c = dict(c0)
+    c["reactions"] = c0["reactions"] + c1["reactions"]
+    for i, r in enumerate(c["reactions"]):
+        r["idx"] = i + 1
+    c["species1"], c["gas1"] = c1["species"], c1["gas"]
+    c["user_eb1"], c["user_yield1"] = c1["user_eb"], c1["user_yield"]
+    c["points1"] = c1["points"]
+    c["two_groups"] = True
+    return c
+
+
 def gen_cases(tier):
     rng = common.rng_for(ID)
     n = 32 if tier == "quick" else 480
-    cases = [make_case(random.Random(rng.getrandbits(64)), *PAIRS[i % 4]) for i in range(n)]
+    cases = [make_case(random.Random(rng.getrandbits(64)), *PAIRS[i % 4], group=(1 if i % 8 >= 6 else 0)) for i in range(n)]
+    for _ in range(2 if tier == "quick" else 24):
+        cases.append(make_two_group_case(random.Random(rng.getrandbits(64))))
     # cross pairs: the model does not implement what the file asks for -> must be refused, never a rate
     r = random.Random(rng.getrandbits(64))
     c = make_case(r, "leeds", "hh93")
@@ -128,8 +157,12 @@ def run_case(case, ctx):
     from naunet.species import Species
     obs, viol = Counter(), []
     fmt, model = case["format"], case["model"]
-    pref = "G" if fmt == "leeds" else "#"
+    grp = case.get("group", 0)
+    gs = str(grp) if grp else ""
+    pref = ("G" if fmt == "leeds" else "#") + gs
     work = ctx.fresh_dir("g")
+    if grp:
+        obs["grain_group_1_cases"] += 1
     Species.reset()
     chemistrydata.user_binding_energy.clear()
     chemistrydata.user_photon_yield.clear()
@@ -138,6 +171,11 @@ def run_case(case, ctx):
         obs["user_binding_energy_species"] += len(case["user_eb"])
     if case["user_yield"]:
         chemistrydata.update_photon_yield({pref + g: v for g, v in case["user_yield"].items()})
+    two = bool(case.get("two_groups"))
+    if two:
+        obs["two_group_cases"] += 1
+        chemistrydata.update_binding_energy({"G1" + g: v for g, v in case["user_eb1"].items()})
+        chemistrydata.update_photon_yield({"G1" + g: v for g, v in case["user_yield1"].items()})
     obs["model_" + model] += 1
 
     def render(reactions, tag):
@@ -183,17 +221,22 @@ def run_case(case, ctx):
     idx = {k: int(v) for k, v in macros["IDX"].items() if str(v).isdigit()}
     cmds = ["consts", "defaults"]
     ys = []
-    for pt in case["points"]:
+    for pti, pt in enumerate(case["points"]):
         y = [pt["yscale"] * (0.3 + 0.1 * ((i * 7) % 11)) for i in range(nsp)]
+        if two:
+            for k, v in case["points1"][pti].items():
+                if k in GRAIN_KEYS and (k + "1") in fields:
+                    cmds.append(f"set {k}1 {lab.fmt(v)}")
         for g in case["gas"]:
-            a = "G" + g + "I"
-            if a in idx:
+            a = next((x for x in ("G" + gs + g + "I", "G" + g + "I") if x in idx), None)
+            if a:
                 y[idx[a]] = {"zero": 0.0, "tiny": 1e-40, "large": y[idx[a]]}[pt["mant_mode"]]
         ys.append(y)
         for k, v in pt.items():
-            if k in fields:
-                cmds.append(f"set {k} {lab.fmt(v)}")
-        cmds += ["y " + " ".join(lab.fmt(v) for v in y), "rates", "elem"]
+            fk = k + gs if (k in GRAIN_KEYS and (k + gs) in fields) else k
+            if fk in fields:
+                cmds.append(f"set {fk} {lab.fmt(v)}")
+        cmds += ["y " + " ".join(lab.fmt(v) for v in y), "rates", "mantle"]
     rr = lab.run_driver(b["exe"], cmds, work / "b")
     if rr.crashed():
         viol.append(violation("sanitizer_report_or_crash", (rr.sanitizer_reports or ["driver crashed"])[0][:300], stderr=rr.stderr[-1200:]))
@@ -203,38 +246,46 @@ def run_case(case, ctx):
     consts = rr.by_ev("consts")[0]
     defaults = rr.by_ev("defaults")[0]
     kinds = set()
-    for pi, (pt, kev, eev) in enumerate(zip(case["points"], rr.by_ev("rates"), rr.by_ev("elem"))):
+    for pi, (pt, kev, eev) in enumerate(zip(case["points"], rr.by_ev("rates"), rr.by_ev("mantle"))):
         env = dict(defaults)
         env.pop("ev", None)
         env.update({k: v for k, v in consts.items() if k != "ev"})
-        env.update({k: v for k, v in pt.items() if k in fields})
+        env.update({k: v for k, v in pt.items() if k in fields or (k + gs) in fields})
         env["mant"] = eev["mantle"]
         if pt["mant_mode"] == "zero":
             obs["mantle_zero_points"] += 1
         y = ys[pi]
         if fmt == "leeds":
             # hh93: grain density is derived from the grain species of the network
-            env["gdens"] = sum(y[idx[a]] for a in ("GRAIN0I", "GRAINM") if a in idx)
+            env["gdens"] = sum(y[idx[a]] for a in (("GRAIN0I", "GRAINM") if not grp else (f"GRAIN{gs}I", f"GRAIN{gs}M")) if a in idx)
         env["yH"] = y[idx["HI"]] if "HI" in idx else 0.0
+        env0 = env
         for ri, r in enumerate(case["reactions"]):
             kind = r["kind"]
             if kind == "gas":
                 continue
             kinds.add(kind)
+            env = env0
+            spec_tab = case["species"]
+            if two and r.get("group") == 1:
+                # group-1 reaction: group-1 parameters, group-1 grain density, group-1 species data
+                env = dict(env0)
+                env.update({k: v for k, v in case["points1"][pi].items() if k in GRAIN_KEYS})
+                env["gdens"] = sum(y[idx[a]] for a in ("GRAIN1I", "GRAIN1M") if a in idx)
+                spec_tab = case["species1"]
             try:
                 if fmt == "leeds":
                     if kind in ("surface", "reactive"):
                         a, b2 = r["pair"]
-                        s1 = dict(case["species"][a], name="G" + a, eb=consts.get(f"eb_G{a}I", case["species"][a]["eb"]))
-                        s2 = dict(case["species"][b2], name="G" + b2)
                         # the Python-side binding energies are the generator's; eb_<alias> must agree with them
-                        ref = grainlaws.hh93(kind, r, (case["species"][a] | {"name": "G" + a}, case["species"][b2] | {"name": "G" + b2}), env)
+                        # the light-species rule of HH93 (tunnelling of GH / GH2) is keyed on the plain ice names
+                        ref = grainlaws.hh93(kind, r, (spec_tab[a] | {"name": "G" + a}, spec_tab[b2] | {"name": "G" + b2}), env)
                     elif kind == "recombine":
                         ref = grainlaws.hh93(kind, r, {"A": r["ion_mass"]}, env)
                     elif kind == "ecapture":
                         ref = grainlaws.hh93(kind, r, None, env)
                     else:
-                        spd = dict(case["species"][r["species"]])
+                        spd = dict(spec_tab[r["species"]])
                         ref = grainlaws.hh93(kind, r, spd, env)
                 else:
                     if r.get("electron"):
@@ -257,7 +308,7 @@ def run_case(case, ctx):
                                       f"(mantle {pt['mant_mode']})", rkind=kind, observed=kev["k"][ri], reference=ref, point=pt, species=r.get("species")))
         # eb_<alias> constants must be the species' own binding energies
         for g, spd in case["species"].items():
-            c = consts.get(f"eb_G{g}I")
+            c = consts.get(f"eb_G{gs}{g}I", consts.get(f"eb_G{g}I"))
             if c is not None:
                 obs["binding_energy_constants_checked"] += 1
                 if c != spd["eb"]:
@@ -273,7 +324,9 @@ def run_case(case, ctx):
         net2.to_code(method="dense", path=str(work / "seq2"))
         import re as _re
         txt = (work / "seq2" / "src" / "naunet_constants.cpp").read_text()
-        m = _re.search(rf"double eb_G{g}I\s*=\s*([-+0-9.eE]+);", txt)
+        m = None
+        for al in (f"G{gs}{g}I", f"G{g}I"):
+            m = m or _re.search(r"double eb_" + _re.escape(al) + r"\s*=\s*([-+0-9.eE]+);", txt)
         obs["override_after_first_render_checked"] += 1
         if not m or float(m.group(1)) != new_eb:
             viol.append(violation("binding_energy_override_ignored", f"{fmt}+{model}: update_binding_energy({pref + g}={new_eb}) after a first rendering: second "
